@@ -241,10 +241,12 @@ PROPS = {
         "quick": [
             {"test": "TestC09Flow", "checks": 60000, "shards": 4},
             {"test": "TestC09Complement", "checks": 10000},
+            {"test": "TestC09NilValues", "checks": 6000},
         ],
         "thorough": [
             {"test": "TestC09Flow", "checks": 2400000, "shards": 15},
             {"test": "TestC09Complement", "checks": 400000},
+            {"test": "TestC09NilValues", "checks": 200000, "shards": 2},
         ],
         "assumptions": [
             "maps are iterated only with 'sorted' (unsorted order is Go's)",
